@@ -18,12 +18,18 @@ Verdict(e) ==
    IN  IF e.visUsed # SortedSeqOf(v) THEN "harness.twin-is-not-R"
        ELSE IF e.obs.err # e.twin.err \/ SetOf(e.obs.raw) # SetOf(e.twin.raw)
             THEN "C12.same-as-block-free-text"          \* blocks hide exactly what they enclose
+       ELSE IF e.obs.has # e.twin.has                    \* the yes/no question "does this text hold REUSE information?"
+            THEN "C12.information-present-same-as-block-free-text"   \* (contains_reuse_info, annotate --skip-existing)
+       ELSE IF e.form = "skip"
+            THEN (IF Clean(t) /\ e.obs.has # (IF Expected(t, "L") \cup Expected(t, "C") \cup Expected(t, "K") # {} THEN "yes" ELSE "no")
+                  THEN "C12.information-present-iff-a-visible-tag" ELSE "")
        ELSE IF e.form = "filepoison"                      \* a line with an unparseable expression outside every block: the file
             THEN (IF e.obs.raw # <<>> THEN "C12.ignore-block-leaks-when-the-file-has-an-unparseable-expression" ELSE "")   \* contributes nothing
        ELSE IF Clean(t) /\ ( \/ e.obs.err
                              \/ SetOf(e.obs.lic) # Expected(t, "L")
                              \/ SetOf(e.obs.cop) # Expected(t, "C")
-                             \/ (e.form # "file" /\ SetOf(e.obs.con) # Expected(t, "K")) )   \* lint does not report contributors
+                             \/ (e.form # "file" /\ SetOf(e.obs.con) # Expected(t, "K"))     \* lint does not report contributors
+                             \/ (e.obs.has # "na" /\ e.obs.has # (IF Expected(t, "L") \cup Expected(t, "C") \cup Expected(t, "K") # {} THEN "yes" ELSE "no")) )
             THEN "C12.visible-tags-read-hidden-tags-not"
        ELSE ""
 
